@@ -160,3 +160,64 @@ def ref_reply(case):
     if len(s2) < total:
         return ('proto',)
     return ('done', s2[total:])
+
+
+def run_connect_one(case, first_streams):
+    """SOCKSProxy._connect_one against a proxy host that resolves to several addresses: the handshakes with the first
+    addresses see `first_streams` (each fails somehow), the last one sees case['stream'].  Sockets, name resolution and the
+    event loop are fakes; the library code is real.  Returns what the LAST handshake sent / asked for / left and the outcome."""
+    import types, socket as real_socket
+    from aiorpcx import socks
+    from aiorpcx.util import NetAddress
+    proto, auth, addr = make_client(case)
+    streams = [bytes(s) for s in first_streams] + [bytes(case['stream'])]
+    conns = []
+
+    class FakeSock:
+        def __init__(self, family=None, *a, **k):
+            self.idx = None
+
+        def setblocking(self, flag):
+            pass
+
+        def getpeername(self):
+            return ('10.0.0.%d' % (self.idx + 1), 1080)
+
+        def close(self):
+            pass
+
+    class Loop:
+        async def getaddrinfo(self, host, port, **kw):
+            return [(real_socket.AF_INET, real_socket.SOCK_STREAM, 6, '', ('10.0.0.%d' % (i + 1), port)) for i in range(len(streams))]
+
+        async def sock_connect(self, sock, address):
+            sock.idx = len(conns)
+            conns.append(FakeLoop(streams[sock.idx], case['ks'] if sock.idx == len(streams) - 1 else []))
+
+        async def sock_sendall(self, sock, data):
+            await conns[sock.idx].sock_sendall(sock, data)
+
+        async def sock_recv(self, sock, n):
+            return await conns[sock.idx].sock_recv(sock, n)
+
+    saved = socks.socket, socks.asyncio
+    socks.socket = types.SimpleNamespace(socket=FakeSock, SOCK_STREAM=real_socket.SOCK_STREAM)
+    socks.asyncio = types.SimpleNamespace(get_event_loop=lambda: Loop())
+    try:
+        proxy = socks.SOCKSProxy(NetAddress('proxy.example', 1080), proto, auth)
+        coro = proxy._connect_one(addr)
+        try:
+            coro.send(None)
+            res = 'other:suspended'
+            coro.close()
+        except StopIteration as e:
+            r = e.value
+            res = 'done' if isinstance(r, FakeSock) else classify_exc(r) if isinstance(r, Exception) else 'other:' + repr(r)
+        except Exception as e:
+            res = 'other:escaped:' + type(e).__name__
+    finally:
+        socks.socket, socks.asyncio = saved
+    last = conns[-1] if len(conns) == len(streams) else None
+    return {'res': res, 'connections': len(conns),
+            'sent': [list(m) for m in last.sent] if last else None, 'left': list(last.stream) if last else None,
+            'requested': last.requested if last else None}
